@@ -35,7 +35,9 @@ type symWalker struct {
 	loopMem   map[memKey]string
 	loopBound string
 	memAtLoop map[memKey]poly
-	dw        decWalker // for addrKey / copyStruct helpers
+	head      *ssa.BasicBlock // head of the record loop
+	skips     []string        // branches inside the loop that go on to the next element without appending
+	dw        decWalker       // for addrKey / copyStruct helpers
 }
 
 type loadedVal struct {
@@ -272,6 +274,7 @@ func (w *symWalker) walk(b, prev *ssa.BasicBlock) {
 	}
 	if isHead && !w.inLoop {
 		w.inLoop = true
+		w.head = b
 		w.atLoop = w.snapshot("Hdr")
 		w.memAtLoop = map[memKey]poly{}
 		for mk, v := range w.mem {
@@ -369,11 +372,32 @@ func (w *symWalker) walk(b, prev *ssa.BasicBlock) {
 			w.walk(s1, b)
 		case len(s1.Succs) == 1 && s1.Succs[0] == s0 && !hasStore(s1):
 			w.walk(s0, b)
+		case w.inLoop && w.skipsToHead(s0) && !w.skipsToHead(s1):
+			w.skips = append(w.skips, condPos(w.c, t))
+			w.walk(s1, b)
+		case w.inLoop && w.skipsToHead(s1) && !w.skipsToHead(s0):
+			w.skips = append(w.skips, condPos(w.c, t))
+			w.walk(s0, b)
 		default:
 			failUndecided("%s: a branch that is neither a release-identifier test nor an error guard may change the lengths", posOf(w.c, t))
 		}
 	case *ssa.Return, *ssa.Panic:
 	}
+}
+
+// skipsToHead: from b the loop head is reached again through jump-only blocks
+// that store nothing into the file structure (a `continue`).
+func (w *symWalker) skipsToHead(b *ssa.BasicBlock) bool {
+	for i := 0; i < 6; i++ {
+		if b == w.head {
+			return true
+		}
+		if hasStore(b) || len(b.Succs) != 1 {
+			return false
+		}
+		b = b.Succs[0]
+	}
+	return false
 }
 
 // returnsSoon: the block (or its chain of single successors without stores to
@@ -672,8 +696,15 @@ func c03Lengths(c *Ctx, f *ssa.Function, l *layouts, a map[string]bool) (diffs [
 			}
 		}
 	}
-	if got, ok := get(w.atLoop, "NumberOfCdrsInFile"); !ok || got != w.loopBound || !strings.HasPrefix(got, "len(") {
+	if got, ok := get(w.atLoop, "NumberOfCdrsInFile"); ok && got == "0" {
+		// counted while appending: one more per appended record
+		if d, okd := get(w.delta, "NumberOfCdrsInFile"); !okd || d != "1" {
+			diffs = append(diffs, fmt.Sprintf("NumberOfCdrsInFile starts at 0 and grows by %s per appended record (expected 1)", d))
+		}
+	} else if !ok || got != w.loopBound || !strings.HasPrefix(got, "len(") {
 		diffs = append(diffs, fmt.Sprintf("NumberOfCdrsInFile is %s but the file gets one record per element of %s", got, w.loopBound))
+	} else if len(w.skips) > 0 {
+		diffs = append(diffs, fmt.Sprintf("NumberOfCdrsInFile is %s, but the branch at %s goes on to the next element without appending a record: the header then counts more CDRs than the file contains", got, strings.Join(w.skips, ", ")))
 	}
 	if len(w.appends) != 1 {
 		diffs = append(diffs, fmt.Sprintf("%d records appended per iteration (expected exactly one)", len(w.appends)))
@@ -697,4 +728,11 @@ func c03Lengths(c *Ctx, f *ssa.Function, l *layouts, a map[string]bool) (diffs [
 		diffs = append(diffs, fmt.Sprintf("FileLength grows by %s per record, an encoded record occupies %s", got, wantDelta))
 	}
 	return diffs, nil
+}
+
+func condPos(c *Ctx, t *ssa.If) string {
+	if ins, ok := t.Cond.(ssa.Instruction); ok && ins.Pos().IsValid() {
+		return c.rel(ins.Pos())
+	}
+	return posOf(c, t)
 }
